@@ -4,9 +4,11 @@ package main
 
 import (
 	"bufio"
+	"bytes"
 	"flag"
 	"fmt"
 	"os"
+	"os/exec"
 	"sort"
 	"strings"
 )
@@ -75,14 +77,140 @@ type genFunc func(r *Rng, tier string, o *Out)
 
 var gens = map[string]genFunc{}
 
+// A caseGen produces case number idx from its own PRNG (seeded from the run seed and idx), so any
+// single case can be regenerated alone.  It returns the input part of the line and a function that
+// runs the real code and returns the output part.  Cases run in child processes: when the real code
+// crashes (a panic in a goroutine cannot be recovered) the parent records `OUT PANIC <class>` for
+// that case and continues with the next one.
+type caseGen struct {
+	count func(tier string) int
+	gen   func(r *Rng, tier string, idx int) (in string, run func() string)
+}
+
+var caseGens = map[string]caseGen{}
+
+func caseSeed(seed uint64, idx int) uint64 { return seed*1000003 + uint64(idx)*7919 + 17 }
+
+// runChild executes cases [from,to) in this process, flushing the input before running the code.
+func runChild(prop string, cg caseGen, seed uint64, tier string, from, to int) {
+	w := bufio.NewWriter(os.Stdout)
+	for i := from; i < to; i++ {
+		in, run := cg.gen(NewRng(caseSeed(seed, i)), tier, i)
+		fmt.Fprintf(w, "%s %d %d %s", prop, i, seed, in)
+		w.Flush()
+		out := run()
+		fmt.Fprintf(w, " OUT %s\n", out)
+		w.Flush()
+	}
+}
+
+func panicClass(stderr string) string {
+	for _, ln := range strings.Split(stderr, "\n") {
+		if strings.HasPrefix(ln, "panic:") || strings.HasPrefix(ln, "fatal error:") {
+			ln = strings.TrimSpace(strings.TrimPrefix(strings.TrimPrefix(ln, "panic:"), "fatal error:"))
+			switch {
+			case strings.Contains(ln, "slice bounds out of range"):
+				return "slice-bounds"
+			case strings.Contains(ln, "index out of range"):
+				return "index-range"
+			case strings.Contains(ln, "nil pointer"):
+				return "nil-deref"
+			case strings.Contains(ln, "divide by zero"):
+				return "div-zero"
+			case strings.Contains(ln, "all goroutines are asleep"):
+				return "deadlock"
+			}
+			f := strings.Fields(ln)
+			if len(f) > 6 {
+				f = f[:6]
+			}
+			return "other:" + strings.Join(f, "_")
+		}
+	}
+	return "exit-without-panic-message"
+}
+
+// runParent splits [0,n) over worker children and stitches their output, turning crashes into outputs.
+func runParent(prop string, cg caseGen, seed uint64, tier string, w *bufio.Writer) {
+	n := cg.count(tier)
+	workers := 12
+	if n < 200 {
+		workers = 2
+	}
+	type chunk struct{ from, to int }
+	chunks := []chunk{}
+	per := (n + workers - 1) / workers
+	for a := 0; a < n; a += per {
+		b := a + per
+		if b > n {
+			b = n
+		}
+		chunks = append(chunks, chunk{a, b})
+	}
+	results := make([][]byte, len(chunks))
+	done := make(chan int)
+	self, _ := os.Executable()
+	for ci, c := range chunks {
+		go func(ci int, c chunk) {
+			var acc bytes.Buffer
+			next := c.from
+			crashes := 0
+			for next < c.to {
+				cmd := exec.Command(self, "-child", "-seed", fmt.Sprint(seed), "-tier", tier,
+					"-from", fmt.Sprint(next), "-to", fmt.Sprint(c.to), prop)
+				var so, se bytes.Buffer
+				cmd.Stdout, cmd.Stderr = &so, &se
+				err := cmd.Run()
+				out := so.Bytes()
+				if err == nil {
+					acc.Write(out)
+					break
+				}
+				// crashed: the last line is incomplete (input only)
+				idx := bytes.LastIndexByte(out, '\n')
+				acc.Write(out[:idx+1])
+				last := string(out[idx+1:])
+				f := strings.Fields(last)
+				if len(f) < 2 {
+					fmt.Fprintf(os.Stderr, "child crashed before writing a case: %s\n", se.String())
+					break
+				}
+				var id int
+				fmt.Sscan(f[1], &id)
+				acc.WriteString(last + " OUT PANIC " + panicClass(se.String()) + "\n")
+				next = id + 1
+				crashes++
+				if crashes > 200 {
+					fmt.Fprintln(os.Stderr, "too many crashes in one chunk; giving up on it")
+					break
+				}
+			}
+			results[ci] = acc.Bytes()
+			done <- ci
+		}(ci, c)
+	}
+	for range chunks {
+		<-done
+	}
+	for _, r := range results {
+		w.Write(r)
+	}
+}
+
 func main() {
 	seed := flag.Uint64("seed", 1, "PRNG seed")
 	tier := flag.String("tier", "quick", "quick|thorough")
 	outp := flag.String("out", "-", "output file")
+	child := flag.Bool("child", false, "internal: run cases [from,to) in this process")
+	from := flag.Int("from", 0, "internal")
+	to := flag.Int("to", 0, "internal")
 	flag.Parse()
 	if flag.NArg() < 1 {
 		names := []string{}
 		for k := range gens {
+			names = append(names, k)
+		}
+		for k := range caseGens {
 			names = append(names, k)
 		}
 		sort.Strings(names)
@@ -90,8 +218,13 @@ func main() {
 		os.Exit(2)
 	}
 	prop := flag.Arg(0)
+	cg, isCase := caseGens[prop]
+	if isCase && *child {
+		runChild(prop, cg, *seed, *tier, *from, *to)
+		return
+	}
 	g, ok := gens[prop]
-	if !ok {
+	if !ok && !isCase {
 		fmt.Fprintln(os.Stderr, "unknown property", prop)
 		os.Exit(2)
 	}
@@ -106,7 +239,11 @@ func main() {
 		defer f.Close()
 	}
 	w := bufio.NewWriterSize(f, 1<<20)
-	o := &Out{w: w, prop: prop, seed: *seed}
-	g(NewRng(*seed), *tier, o)
+	if isCase {
+		runParent(prop, cg, *seed, *tier, w)
+	} else {
+		o := &Out{w: w, prop: prop, seed: *seed}
+		g(NewRng(*seed), *tier, o)
+	}
 	w.Flush()
 }
